@@ -386,12 +386,14 @@ Proof.
   intros debug o Hq. destruct o; try discriminate Hq; [rewrite StorageD.sd_step_op_QueryAll | cbn [step_op] ..].
   - eapply hoare_bind; [apply r2l_h_ro; [apply readonly_resolveR|auto]|]. intros rl.
     eapply hoare_bind; [apply r2l_h_ro; [apply readonly_resolve_relidx|auto]|]. intros ?rl.
+    eapply hoare_bind; [apply r2l_h_ro; [apply readonly_check_unsafe_rels|auto]|]. intros ?u0.
     eapply hoare_bind; [apply r2l_query_open|]. intros qi.
     eapply hoare_bind; [apply r2l_h_ro; [apply StorageD.sd_ro_query_count|auto]|]. intros cnt.
     eapply hoare_bind; [apply r2l_drain_go|]. intros es.
     eapply hoare_bind; [apply r2l_close|]. intros ?u. apply hoare_ret. auto.
   - eapply hoare_bind; [apply r2l_h_ro; [apply readonly_resolveR|auto]|]. intros rl.
     eapply hoare_bind; [apply r2l_h_ro; [apply readonly_resolve_relidx|auto]|]. intros ?rl.
+    eapply hoare_bind; [apply r2l_h_ro; [apply readonly_check_unsafe_rels|auto]|]. intros ?u0.
     eapply hoare_bind; [apply r2l_query_open|]. intros qi. apply hoare_ret. auto.
   - eapply hoare_bind; [apply r2l_query_next|]. intros b. apply hoare_ret. auto.
   - eapply hoare_bind; [apply r2l_close|]. intros b. apply hoare_ret. auto.
